@@ -18,6 +18,11 @@ theorem seg_head {nx a l} (h : Seg nx a l) (ha : a ≠ 0) : ∃ l', l = a :: l' 
   | nil => simp only [Seg] at h; omega
   | cons b l => simp only [Seg] at h; obtain ⟨rfl, _, h3⟩ := h; exact ⟨l, rfl, h3⟩
 
+theorem seg_head_mem {nx a l} (h : Seg nx a l) {x} (hx : x ∈ l) : a ∈ l := by
+  cases l with
+  | nil => simp at hx
+  | cons b l => simp only [Seg] at h; simp [h.1]
+
 theorem seg_congr {nx nx' : Nat → Nat} {a l} (h : Seg nx a l) (hx : ∀ x, x ∈ l → nx' x = nx x) :
     Seg nx' a l := by
   induction l generalizing a with
